@@ -236,6 +236,14 @@ class Lift:
             elif mn in ("seto", "setc", "setb"):
                 st, cur = self.wr(ops[0], "(uint64_t)%s" % ("OF" if mn == "seto" else "CF"), cur)
                 body.append("  " + st)
+            elif mn in ("movzbl", "movzbq", "movzbw", "movzwl", "movzwq") and not ops[0].endswith(")"):
+                # zero extension of a narrower register (flags untouched); a 32-bit destination clears the upper half as well
+                r_, w_ = self.reg(ops[0])
+                sw = 8 if mn[4] == "b" else 16
+                if mn == "movzbw":
+                    self.fail(text)
+                st, cur = self.wr(ops[1], "(%s & %s)" % (r_, "0xffULL" if sw == 8 else "0xffffULL"), cur)
+                body.append("  " + st)
             elif mn in ("nop", "nopw", "nopl", "xchg", "data16", "cs"):
                 pass
             else:
